@@ -12,6 +12,7 @@ FAMILY = {
     "C10": "fam_rdl",
     "C20": "fam_xor",
     "C18": "fam_bridge",
+    "C11": "fam_udp", "C12": "fam_udp",
     "C14": "fam_delay",
     "C15": "fam_filters", "C16": "fam_filters",
 }
